@@ -29,6 +29,7 @@ package main
 import (
 	"bufio"
 	"bytes"
+	"context"
 	"crypto/ecdsa"
 	"crypto/elliptic"
 	"crypto/rand"
@@ -36,9 +37,8 @@ import (
 	"crypto/x509"
 	"crypto/x509/pkix"
 	"encoding/pem"
-	"math/big"
-	"context"
 	"fmt"
+	"math/big"
 	"net"
 	"os"
 	osexec "os/exec"
@@ -60,6 +60,7 @@ import (
 	"github.com/inbucket/inbucket/v3/pkg/storage/mem"
 	"github.com/inbucket/inbucket/v3/pkg/verifhook"
 	"github.com/rs/zerolog"
+	"verifharness/asmsys"
 	"verifharness/vh"
 )
 
@@ -155,8 +156,13 @@ type recorder struct {
 	n  int
 }
 
-func (r *recorder) Receive(msg event.MessageMetadata) error { r.mu.Lock(); r.n++; r.mu.Unlock(); return nil }
-func (r *recorder) Delete(mailbox string, id string) error  { return nil }
+func (r *recorder) Receive(msg event.MessageMetadata) error {
+	r.mu.Lock()
+	r.n++
+	r.mu.Unlock()
+	return nil
+}
+func (r *recorder) Delete(mailbox string, id string) error { return nil }
 
 func setenv(k, v string) { os.Setenv(k, v) }
 
@@ -784,6 +790,9 @@ func runRet(period string, n int, when string) []string {
 // send on a closed channel during the drain) kills the whole process, and that must become an
 // observation of THIS case, not the end of the run.
 func exec(kind string, in []string) []string {
+	if asmsys.Is(kind) {
+		return asmsys.Exec(kind, in)
+	}
 	self, err := os.Executable()
 	if err != nil {
 		return run1(kind, in)
@@ -822,6 +831,9 @@ func run1(kind string, in []string) []string {
 }
 
 func main() {
+	if asmsys.ChildMain() {
+		return
+	}
 	zerolog.SetGlobalLevel(zerolog.Disabled)
 	verifhook.Set(hookHandler)
 	if len(os.Args) >= 3 && os.Args[1] == "child" {
